@@ -179,3 +179,17 @@ package generic
 //@   loop 1 invariant #every-option-applied-in-order optlog == old(optlog) ++ applied(opts, box("*generic.Driver", d), rangeindex + 1)
 //@   at call! NewTransport#1 assert #the-transport-gets-the-host-the-selected-type-and-all-options arg1 == host && arg2 == d.TransportType && arg3 === opts && arg0 == d.Logger && d.Logger != nil && optlog == old(optlog) ++ applied(opts, box("*generic.Driver", d), len(opts))
 //@   at call! NewChannel#1 assert #the-channel-gets-the-transport-and-all-options arg1 == d.Transport && arg2 === opts && arg0 == d.Logger
+
+// ---- C06 / C07 / C17: Open runs the on-open hook after the channel is open; a failing hook fails the open with its own error
+// and the channel is closed ------------------------------------------------------------------------------------------------
+// hookErr: ghost - what the on-open hook returned
+//@ ghost hookErr error
+//@ func (*Driver).Open [C06 C07 C17]
+//@   requires RI(d.Channel.Q) && d.Channel.Errs != d.Channel.Q.depthChan && d.Channel.PromptSearchDepth >= 0
+//@   at call! Open#1 assert #the-channel-is-opened-first recv == d.Channel
+//@   after call Open#1 set hookErr = nil
+//@   after call dyn#1 set hookErr = result
+//@   at call dyn#1 assert #the-hook-runs-on-this-driver-after-a-successful-channel-open arg0 == d && err == nil
+//@   at return assert #a-failing-hook-fails-the-open-with-its-own-error hookErr != nil ==> result == hookErr
+//@   at call! Close#1 assert #the-channel-is-closed-only-because-the-hook-failed hookErr != nil && recv == d.Channel
+//@   at return assert #success-means-channel-opened-and-hook-passed result == nil ==> hookErr == nil
